@@ -535,19 +535,59 @@ func (a *bcAnalysis) stmt(s ast.Stmt, en bcEnv) bcEnv {
 			en = a.stmt(x.Init, en)
 		}
 		a.expr(x.Tag, en)
-		en.killAll(bcAssigned(x))
-		for _, c := range x.Body.List {
-			cc := c.(*ast.CaseClause)
-			ce := en
-			for _, e := range cc.List {
-				a.expr(e, en)
+		// without `fallthrough` exactly one case body runs, once, and every case expression is evaluated before it:
+		// what holds at the switch holds at the start of each body, and a tag-less switch is an if / else-if chain (a
+		// case is reached with the earlier cases' conditions false; `default` with all of them false, wherever it stands)
+		chain := x.Tag == nil
+		ast.Inspect(x.Body, func(n ast.Node) bool {
+			if br, ok := n.(*ast.BranchStmt); ok && br.Tok == token.FALLTHROUGH {
+				chain = false
 			}
-			if x.Tag == nil && len(cc.List) == 1 {
-				ce = a.addFacts(en, a.condFacts(cc.List[0], true, en))
+			return true
+		})
+		if !chain {
+			en.killAll(bcAssigned(x))
+			for _, c := range x.Body.List {
+				cc := c.(*ast.CaseClause)
+				ce := en
+				for _, e := range cc.List {
+					a.expr(e, en)
+				}
+				if x.Tag == nil && len(cc.List) == 1 {
+					ce = a.addFacts(en, a.condFacts(cc.List[0], true, en))
+				}
+				a.stmts(cc.Body, ce)
 			}
-			a.stmts(cc.Body, ce)
+			return en
 		}
-		return en
+		{
+			reach := en.clone() // facts when the next case expression is evaluated
+			var deflt *ast.CaseClause
+			for _, c := range x.Body.List {
+				cc := c.(*ast.CaseClause)
+				if cc.List == nil {
+					deflt = cc
+					continue
+				}
+				for _, e := range cc.List {
+					a.expr(e, reach)
+				}
+				if len(cc.List) == 1 {
+					a.stmts(cc.Body, a.addFacts(reach.clone(), a.condFacts(cc.List[0], true, reach)))
+					reach = a.addFacts(reach.clone(), a.condFacts(cc.List[0], false, reach))
+				} else {
+					a.stmts(cc.Body, reach.clone())
+					for _, e := range cc.List {
+						reach = a.addFacts(reach.clone(), a.condFacts(e, false, reach))
+					}
+				}
+			}
+			if deflt != nil {
+				a.stmts(deflt.Body, reach.clone())
+			}
+			en.killAll(bcAssigned(x))
+			return en
+		}
 	case *ast.TypeSwitchStmt:
 		if x.Init != nil {
 			en = a.stmt(x.Init, en)
